@@ -34,6 +34,11 @@ UNSAFE_FN_ALLOW = {
     '<bls12_381::ec::g1::G1Affine as CurveAffine>::as_tuple_mut', '<bls12_381::ec::g1::G1 as CurveProjective>::as_tuple_mut',
     '<bls12_381::ec::g2::G2Affine as CurveAffine>::as_tuple_mut', '<bls12_381::ec::g2::G2 as CurveProjective>::as_tuple_mut',
 }
+# external code the crate may call: crates whose API is deterministic and free of shared state (the
+# DENY_PREFIX list above still applies inside core/alloc), and for the `std` facade only these modules
+PURE_CRATES = {'core', 'alloc', 'digest', 'ff_zeroize', 'generic_array', 'typenum', 'zeroize', 'byteorder',
+               'rand_core', 'rand_xorshift', 'sha2', 'sha3', 'block_buffer', 'subtle'}
+STD_ALLOW = ('std::f64', 'std::f32', 'std::io::', 'std::rt::begin_panic', 'std::rt::panic', 'std::panicking', 'std::error::', 'std::ascii', 'std::path', 'std::ffi')
 RNG_TRAITS = ('rand_core::RngCore', 'rand::Rng', 'rand_core::CryptoRng')
 
 
@@ -102,6 +107,8 @@ def rules(fx, rep):
     deny = []
     rng_bad = []
     rawptr = []
+    unaudited = []
+    n_ext = 0
     for b in fx.bodies():
         n_bodies += 1
         rep.fn(b.path)
@@ -128,6 +135,18 @@ def rules(fx, rep):
                     if not t.get('expn') or not cand.startswith('std::fmt'):
                         deny.append((b.path, cand, t['span']))
                     break
+            for key in ('def', 'res'):
+                pth_ = c.get(key)
+                if not pth_ or c.get(key + '_local') or (key + '_crate') not in c:
+                    continue
+                kr = c[key + '_crate']
+                n_ext += 1
+                if kr in PURE_CRATES:
+                    continue
+                bare = pth_.lstrip('<&')
+                if kr == 'std' and any(bare.startswith(a) for a in STD_ALLOW):
+                    continue
+                unaudited.append((b.path, '%s (crate %s)' % (pth_, kr), t['span']))
             if c.get('trait') in RNG_TRAITS:
                 if o is None:
                     o = Origin(b)
@@ -143,6 +162,10 @@ def rules(fx, rep):
     rep.check(not badasm, 'PURE', 'no-inline-asm', 'no inline assembly', 'asm in %s' % badasm[:3])
     rep.check(not deny, 'PURE', 'no-ambient-authority-calls', 'no call (resolved, whole crate, %d call sites) into threads, locks, atomics, clocks, environment, files, network, OS randomness, hashing seeds, volatile or raw allocation APIs' % n_calls,
               'calls into non-deterministic / shared-state APIs: %s' % ['%s calls %s at %s' % d for d in deny[:4]])
+    rep.check(not unaudited and n_ext > 0, 'PURE', 'external-calls-only-into-audited-crates',
+              'all %d external callees (declared and resolved) live in %s or the audited part of std (%s)' % (n_ext, sorted(PURE_CRATES), ', '.join(STD_ALLOW) + '; console streams excluded'),
+              'calls into code outside the audited deterministic set: %s' % ['%s calls %s at %s' % d for d in unaudited[:4]])
+    rep.floor('PURE', 'external-callees', n_ext, 3000)
     rep.check(not rng_bad, 'PURE', 'rng-only-through-explicit-parameter', 'random-number methods are only invoked on a generator passed in by the caller; no generator is constructed',
               'hidden randomness: %s' % ['%s: %s on %s at %s' % r for r in rng_bad[:3]])
     rep.floor('PURE', 'bodies', n_bodies, 400)
